@@ -57,5 +57,8 @@ BodyWF(tag, b) ==
     [] tag = 18 -> Len(b) >= 1 /\ b[1] = 1
     [] tag = 19 -> Len(b) = 20
     [] OTHER -> TRUE
-Norm(tag, b) == IF tag = 2 THEN SigNorm(b) ELSE IF tag \in {5, 6, 7, 14} THEN KeyNorm(b) ELSE IF tag = 1 THEN PkeskNorm(b) ELSE <<b>>
+\* one-pass signature (5.4): the last octet is a flag, zero = "another one-pass packet follows"; any non-zero value means the same thing
+OpsNorm(b) == IF Len(b) = 13 /\ b[1] = 3 THEN <<SubSeq(b, 1, 12) \o <<IF b[13] = 0 THEN 0 ELSE 1>> >> ELSE <<b>>
+Norm(tag, b) == IF tag = 2 THEN SigNorm(b) ELSE IF tag \in {5, 6, 7, 14} THEN KeyNorm(b) ELSE IF tag = 1 THEN PkeskNorm(b)
+                ELSE IF tag = 4 THEN OpsNorm(b) ELSE <<b>>
 =============================================================================
